@@ -207,7 +207,7 @@ class QubitOperator(of.QubitOperator):
 
         compressed_op = dict()
         coef2_sum = 0.
-        frob_factor = 2**(n_qubits // 2)
+        frob_factor = 2**(n_qubits / 2)
 
         # Arrange the terms of the qubit operator in ascending order
         self.terms = OrderedDict(sorted(self.terms.items(), key=lambda x: abs(x[1]), reverse=False))
